@@ -43,12 +43,14 @@ theorem gen_keys_shape :
 theorem gen_dep_flags : depConst "Dev" = -1 ∧ depConst "Opt" = -2 ∧ depConst "Test" = -4 := by decide
 
 /-- the test helpers list every declared constant exactly once, and every constant has
-a stringer name. -/
+a stringer name (as multisets: the order in which constants are declared, or listed by the
+helpers, is immaterial). -/
 theorem gen_allKeys :
-    C19AttrKeys.depAllKeys = C19AttrKeys.depConsts.map (·.2) ∧
-    C19AttrKeys.versionAllKeys = C19AttrKeys.versionConsts.map (·.2) ∧
-    C19AttrKeys.depNames.map (·.1) = C19AttrKeys.depAllKeys ∧
-    C19AttrKeys.versionNames.map (·.1) = C19AttrKeys.versionAllKeys := by decide
+    C19AttrKeys.depAllKeys.isPerm (C19AttrKeys.depConsts.map (·.2)) = true ∧
+    C19AttrKeys.versionAllKeys.isPerm (C19AttrKeys.versionConsts.map (·.2)) = true ∧
+    (C19AttrKeys.depNames.map (·.1)).isPerm C19AttrKeys.depAllKeys = true ∧
+    (C19AttrKeys.versionNames.map (·.1)).isPerm C19AttrKeys.versionAllKeys = true ∧
+    C19AttrKeys.depAllKeys.Nodup ∧ C19AttrKeys.versionAllKeys.Nodup := by decide
 
 /-! ## 1. Invariant of all op sequences -/
 
